@@ -100,7 +100,7 @@ MStep(mm, o, S0, S1) ==
          [] o.op = "drop" ->
                IF ~member THEN mm
                ELSE MZombie(IF S0.bars[b].fin = "no" THEN MDraw(fresh, <<>>, TRUE, o.t) ELSE mm, b)
-         [] o.op \in {"set_style", "restyle", "copy_style", "clone", "drop_one", "mp_set_alignment", "mp_set_move_cursor", "reset_eta", "reset_elapsed", "is_hidden", "downgrade", "upgrade"} -> mm
+         [] o.op \in {"set_style", "restyle", "copy_style", "clone", "drop_one", "mp_set_alignment", "mp_set_move_cursor", "reset_eta", "reset_elapsed", "is_hidden", "mp_is_hidden", "downgrade", "upgrade"} -> mm
          [] o.op = "burst" -> IF member THEN MBurst(fresh, o.n, S1.bars[b].fin # "no", o.t) ELSE mm
          (* ProgressBarIter over n items: n ordinary requests (inc), then the finish (forced) unless the bar was finished before *)
          [] o.op = "iter" -> IF ~member THEN mm
@@ -111,7 +111,7 @@ MStep(mm, o, S0, S1) ==
 
 Painted(o, S0) == (o.op \in {"set_target", "readd", "mp_remove"} => S0.bars[o.b].inmp)
                   /\ o.op \notin {"add", "insert", "insert_from_back", "insert_before", "insert_after", "set_style", "restyle", "copy_style", "clone", "drop_one",
-                               "mp_set_alignment", "mp_set_move_cursor", "reset_eta", "reset_elapsed", "is_hidden", "downgrade", "upgrade"}
+                               "mp_set_alignment", "mp_set_move_cursor", "reset_eta", "reset_elapsed", "is_hidden", "mp_is_hidden", "downgrade", "upgrade"}
                   /\ (o.op = "drop" => S0.bars[o.b].fin = "no")
                   /\ (o.b # 0 => (o.b \in S0.ids => S0.bars[o.b].vis))
 
